@@ -95,11 +95,14 @@ def run(
     tmp = os.path.join(d, 'tmp')
     os.makedirs(tmp, exist_ok=True)
     cfgpath = cfg if os.path.isabs(cfg) else os.path.join(SPEC, cfg)
-    jopts = [f'-Xss{xss}', f'-Djava.io.tmpdir={tmp}', '-XX:+UseParallelGC']
+    jopts = [f'-Xss{xss}', f'-Djava.io.tmpdir={tmp}', '-XX:+UseParallelGC', f'-DTLA-Library={SPEC}']
     if deque:
         jopts.append('-Dtlc2.tool.queue.IStateQueue=StateDeque')
     cmd = ['java', *jopts, '-cp', JAR, 'tlc2.TLC', '-metadir', meta, '-noGenerateSpecTE', '-workers', str(workers), '-config', cfgpath]
     cmd += args or []
+    if os.path.isabs(module):           # a generated root module living in the work directory (EXTENDS resolved via TLA-Library)
+        cwd = os.path.dirname(module)
+        module = os.path.basename(module)
     cmd.append(module)
     e = dict(os.environ)
     e.pop('JAVA_TOOL_OPTIONS', None)
